@@ -261,6 +261,24 @@ pub fn gen(prop: &str, seed: u64, thorough: bool, out: &mut impl Write) {
             }
         }
         "C05" => {
+            // single and double steps across the gap and at both ends, every size, both directions
+            for k in 0..3u64 {
+                let sz = size_of_k(k);
+                for d in 0..3u64 {
+                    for n in 0..4u64 {
+                        emit(out, &[31, k, ((1u64 << 47) - sz).wrapping_sub(d * sz), n]);
+                        emit(out, &[32, k, 0xffff_8000_0000_0000u64.wrapping_add(d * sz), n]);
+                        emit(out, &[31, k, 0u64.wrapping_sub(sz).wrapping_sub(d * sz), n]);
+                        emit(out, &[32, k, d * sz, n]);
+                    }
+                }
+            }
+            for d in 0..3u64 {
+                for n in 0..4u64 {
+                    emit(out, &[11, (1u64 << 47) - 1 - d, n]);
+                    emit(out, &[12, 0xffff_8000_0000_0000u64 + d, n]);
+                }
+            }
             for s in 0..512u64 {
                 for e in [0u64, 1, 2, 255, 256, 510, 511] {
                     emit(out, &[46, s, e]);
